@@ -10,7 +10,7 @@ CFG = dict(
          "retryableSync with ErrBufferFull, preallocation on and off, maxOpenedFiles 1..3 (eviction stream, rewinds kept "
          "inside the current chunk) or 1000; offsets and lengths drawn from 0, 1, size-1, size, size+1, size+2, last flushed "
          "size +-1, last append/rewind offset, multiples of the buffer size +-1, multiples of the chunk size +-1, distance to "
-         "the chunk end +-1; 9 directed scenarios (the known defects) run first. A case is non-trivial when it has a "
+         "the chunk end +-1; 12 directed scenarios (the defects found so far, repaired ones included) run first. A case is non-trivial when it has a "
          "successful Append, a ReadAt that returned >= 1 byte and (a successful rewind below the size, or a reopen, or data "
          "in >= 2 chunks); distinct by (options, operations, outputs)",
     trusted_base=COMMON_TB + [
